@@ -15,8 +15,8 @@ LEVEL_TEXT = ("Machine-checked proof (Coq, axiom-free) that every RecordTensor o
 LEVEL_NOTE = ("Trusted: Coq kernel; translator for _unwind_ptr; hand-written model C01/Ring.v validated by correspondence only "
               "(generator coverage); torch indexing/cat/gather/scatter/roll modelled by their meaning. Proved: read, write (both "
               "branches), incr/decr, push (incl. storage creation and dtype adoption), pop/peek, align, reset, readrange "
-              "scalar+tensor and their agreement, writerange scalar (all three code paths), well-formedness over every run. "
-              "NOT proved (correspondence + oracle only): the tensor-offset writerange (scatter) characterisation.")
+              "scalar+tensor and their agreement, writerange scalar (all three code paths) and tensor (scatter), well-formedness "
+              "over every run. Negative align indices and dtype promotion corner cases are covered by correspondence only.")
 HEADER = ("From Coq Require Import List ZArith Bool.\nFrom Inferno Require Import Base.NumF C01.Ring C01.RingExec.\n"
           "Import ListNotations.\nOpen Scope Z_scope.\n")
 IMPL = os.path.join(F.VERIF, "tools", "impl", "c01_impl.py")
